@@ -15,6 +15,8 @@ SHAPES = [
     "!oneof x", "!oneof {}", "!oneof {discriminator: d}", "!oneof {one_of: {}}", "!oneof {discriminator: d, one_of: x}", '!oneof {discriminator: "", one_of: {}}',
     "!oneof {discriminator: d, one_of: {}}", '!oneof {discriminator: [1], one_of: {a: !expr "$.input"}}', '!oneof {discriminator: d, one_of: {a: x, b: [1]}}',
     '!oneof {discriminator: d, one_of: {a: !oneof {discriminator: e, one_of: {}}}}', "!oneof [a, b]",
+    "!oneof {discriminator: d, one_of: [a, b]}", "!oneof {discriminator: d, one_of: []}", "!oneof {discriminator: d, one_of: [{a: b}]}", "!oneof {discriminator: {a: b}, one_of: {}}",
+    "!oneof {discriminator: d, one_of: null}", "!oneof {discriminator: null, one_of: {a: {}}}", "!oneof [[a]]", "!oneof {discriminator: d, one_of: {a: null}}", "!oneof {discriminator: d, one_of: {1: {}}}",
     "!ordisabled x", "!ordisabled [1]", '!ordisabled "$.steps.a.outputs"', '!ordisabled "$.steps"', '!ordisabled "steps.a.outputs.success"', '!ordisabled ""', '!ordisabled "$.input.tag"',
     '!soft-optional "0!"', '!wait-optional "$.steps.a.outputs.success!"', '!soft-optional "((("', '!wait-optional "1 +"', '!ordisabled "0!"', '!oneof {discriminator: d, one_of: {a: !expr "0!"}}',
     "!soft-optional [1]", "!wait-optional {}", '!soft-optional "$.x("', '!wait-optional ""', '!soft-optional "$.steps.a.outputs.success"', "!wait-optional x",
@@ -96,6 +98,19 @@ def structural(check):
             files = dict(files0)
             files[prog.name] = yaml_flow(t) + "\n"
             out.append({"files": files, "what": "%s:remove %s" % (name, "/".join(map(str, path))), "class": "remove-key"})
+        # every tagged shape (all tiers) as the value of a workflow output field and of a step input field
+        if name == seeds(check)[0][0]:
+            for sh in SHAPES:
+                if not sh.startswith("!"):
+                    continue
+                for where, path in (("output", ("outputs", "success", "zz_extra")), ("step-input", ("steps", prog.steps[0].name, "input", "a"))):
+                    try:
+                        t = set_path(tree, path, RawYAML(sh))
+                    except (KeyError, TypeError, IndexError):
+                        continue
+                    files = dict(files0)
+                    files[prog.name] = yaml_flow(t) + "\n"
+                    out.append({"files": files, "what": "%s:%s<-%s" % (name, where, sh), "class": "tagged-value@%s:%s" % (where, sh)})
         # the sub-workflow file itself corrupted / input documents
         if "sub.yaml" in files0:
             for sh in (SHAPES if not check.quick() else rng.sample(SHAPES, 10)):
